@@ -68,6 +68,7 @@ class RLScheduler(BaseScheduler):
 
         self._agent_thread: threading.Thread | None = None
         self._stopped: bool = True
+        self._pending_action: int | None = None
 
     def _set_random_state(self, random_state: int | None) -> None:
         """Set the random state (private use)."""
@@ -111,11 +112,18 @@ class RLScheduler(BaseScheduler):
     def _train(self) -> None:
         """Run the training loop."""
         state = self._env.reset()
-        while not self._stopped:
-            # Get the action chosen by the agent
-            action = self._agent.policy(state)
+        while True:
+            # Get the action chosen by the agent (or the one left pending by the previous session)
+            if self._pending_action is None:
+                self._pending_action = self._agent.policy(state)
+            action = self._pending_action
             # Interact with the environment
-            next_state, reward, _, _, _ = self._env.step(action)
+            next_state, reward, _, truncated, _ = self._env.step(action)
+            if truncated:
+                # end of session: the action has not been executed, so there is nothing to learn from;
+                # it stays pending and is proposed again at the beginning of the next session
+                break
+            self._pending_action = None
             # Learn from interaction
             self._agent.learn(state, action, reward, next_state)
             state = next_state
@@ -165,3 +173,6 @@ class RLScheduler(BaseScheduler):
         self._stopped = True
         self._out_queue.put(None)
         cast(threading.Thread, self._agent_thread).join()
+        # take back the action that the agent proposed but that was never executed
+        while not self._in_queue.empty():
+            self._in_queue.get()
